@@ -343,7 +343,8 @@ class StreamModel:
     def _decide(self, interp, t):
         return None
 
-    def run(self, image, sched, chunk_observer=True, depth=None):
+    def run(self, image, sched, chunk_observer=True, depth=None,
+            second_run=False):
         """Lazy enumeration: the single path the image follows under
         *sched*.  -> dict of observations (python values)."""
         self.image = image
@@ -451,8 +452,34 @@ class StreamModel:
                 insp2 = interp.call(cls, [])
                 res['fresh_after'] = observe(interp, insp2, False)
             except AbsRaise as r:
+                insp2 = None
                 res['fresh_after'] = {'constructor': (
                     'raise', _exc_name(interp, r.exc))}
+            if second_run and insp2 is not None:
+                # the second inspector reads the same stream: afterwards no
+                # mutable object made while streaming may belong to both
+                st.update(insp=insp2, chunk=-1, born={}, visits={},
+                          represent={}, static=set())
+                st.pop('gone', None)
+                regs2 = insp2.fields.get('_capture_regions')
+                if isinstance(regs2, DictV):
+                    for v in regs2.vals:
+                        st['static'].add(id(v))
+                try:
+                    for i in range(n):
+                        st['chunk'] = i
+                        try:
+                            st['chunk_floor'] = model.held_floor(interp,
+                                                                 insp2)
+                        except (CannotEval, Raised):
+                            st['chunk_floor'] = None
+                        chunk = T('sym', 'chunk%d' % i)
+                        interp.call(interp.get_attr(insp2, 'eat_chunk'),
+                                    [chunk])
+                    interp.call(interp.get_attr(insp2, 'finish'), [])
+                except AbsRaise:
+                    pass
+                res['shared'] = shared_state(interp, insp, insp2)
             chk = insp.fields.get('_safety_checks')
             res['checks'] = sorted(k.v for k in chk.keys) if isinstance(
                 chk, DictV) else None
@@ -525,6 +552,52 @@ class StreamModel:
         finally:
             world.sym_iter_max = old
         return outs
+
+
+def shared_state(interp, a, b):
+    """Mutable objects reachable from both inspector instances that are not
+    class / module constants left as they were imported: [(how reached from
+    the first, what it is)]."""
+    world = interp.world
+    constant = world.__dict__.get('_snap_seen', set())
+
+    def reach(root):
+        seen = {}
+        todo = [(root, 'self')]
+        while todo:
+            v, path = todo.pop()
+            if id(v) in seen or len(seen) > 20000:
+                continue
+            if isinstance(v, Obj):
+                seen[id(v)] = (path, v)
+                for k, x in v.fields.items():
+                    if isinstance(x, (Obj, ListV, DictV, SetV, TupleV)):
+                        todo.append((x, '%s.%s' % (path, k)))
+            elif isinstance(v, (ListV, SetV, TupleV)):
+                if not isinstance(v, TupleV):
+                    seen[id(v)] = (path, v)
+                for j, x in enumerate(v.items):
+                    if isinstance(x, (Obj, ListV, DictV, SetV, TupleV)):
+                        todo.append((x, '%s[%d]' % (path, j)))
+            elif isinstance(v, DictV):
+                seen[id(v)] = (path, v)
+                for k, x in zip(v.keys, v.vals):
+                    if isinstance(x, (Obj, ListV, DictV, SetV, TupleV)):
+                        todo.append((x, '%s[%s]' % (path, show(k))))
+        return seen
+    ra, rb = reach(a), reach(b)
+    out = []
+    for i_, (path, v) in sorted(ra.items(), key=lambda kv: kv[1][0]):
+        if i_ in rb and i_ not in constant and v is not a and v is not b:
+            if isinstance(v, Obj) and v.cls is None:
+                continue        # stand-ins made by the model itself
+            origin = interp.default_objects.get(i_)
+            out.append((path, rb[i_][0], type(v).__name__.replace(
+                'V', '').lower() if not isinstance(v, Obj) else
+                'object of %s' % (v.cls.name if v.cls else '?'),
+                'the default value %s of a parameter of %s' % (
+                    origin[1], origin[0]) if origin else None))
+    return out[:6]
 
 
 def observe_basic(interp, insp, i):
